@@ -325,6 +325,49 @@ def ground_text(rnd):
     return ('\n'.join(st) + '\n').encode()
 
 
+def coherent_theory_program(rnd):
+    """A valid (mostly incremental) program whose theory data is referentially consistent: terms before use, elements with and
+    without conditions, atoms (with/without guard) that reference elements and terms defined in the SAME or an EARLIER step."""
+    steps = rnd.choice([1, 2, 2, 3])
+    prog = [(1, steps > 1)]
+    terms, elems, syms = [], [], []       # ids defined so far (all steps)
+    nid = [0]
+
+    def fresh():
+        nid[0] += 1
+        return nid[0] - 1
+    for st in range(steps):
+        prog.append((2,))
+        for _ in range(rnd.randint(0, 2)):
+            prog.append(C.r_rule(rnd, 5))
+        for _ in range(rnd.randint(1, 4)):
+            k = rnd.random()
+            t = fresh()
+            if k < 0.4 or not terms:
+                prog.append((13, t, rnd.choice([0, 1, 42, -7, 2 ** 31 - 1])))
+            elif k < 0.7:
+                nm = rnd.choice([b'p', b'f', b'sum', b'>=', b'+', b'x'])
+                prog.append((14, t, nm)); syms.append(t)
+            else:
+                base = rnd.choice(syms) if syms and rnd.random() < 0.7 else rnd.choice([-1, -2, -3])
+                prog.append((15, t, base, [rnd.choice(terms) for _ in range(rnd.randint(0, 3))]))
+            terms.append(t)
+        if not syms:
+            t = fresh(); prog.append((14, t, b'p')); syms.append(t); terms.append(t)
+        for _ in range(rnd.randint(0, 3) if (st == 0 or rnd.random() < 0.5) else 0):   # later steps often only RE-USE earlier elements
+            e = fresh()
+            cond = [C.r_lit(rnd, 5) for _ in range(rnd.choice([0, 1, 2, 2]))]
+            prog.append((16, e, [rnd.choice(terms) for _ in range(rnd.randint(0, 2))], cond)); elems.append(e)
+        for _ in range(rnd.randint(1, 2)):
+            es = [rnd.choice(elems) for _ in range(rnd.randint(0, 2))] if elems else []
+            if rnd.random() < 0.3 and len(syms) and terms:
+                prog.append((18, rnd.choice([0, rnd.randint(6, 9)]), rnd.choice(syms), es, rnd.choice(syms), rnd.choice(terms)))
+            else:
+                prog.append((17, rnd.choice([0, rnd.randint(6, 9)]), rnd.choice(syms), es))
+        prog.append((3,))
+    return prog
+
+
 BIG = [b'2147483647', b'2147483648', b'4294967295', b'4294967296', b'9223372036854775807', b'9223372036854775808',
        b'18446744073709551615', b'18446744073709551616', b'18446744073709551617', b'-2147483648', b'-2147483649',
        b'-9223372036854775808', b'99999999999999999999999999999999999999', b'0', b'-0', b'+1', b'00000000001']
@@ -392,6 +435,9 @@ def gen(seed, tier):
         (2, 0, b'a :- 1 {b = -2}.\n'),
         (2, 0, b'#output "  a b" : x1.\n'),
         (2, 0, b'x1 :- not\tx2.\n'),
+        # incremental program whose second step re-uses a conditional theory element of the first (conditions must outlive the step)
+        (4, 0, b'asp 1 0 0 incremental\n9 1 0 1 p\n9 0 1 7\n9 0 2 8\n9 4 0 1 1 1 1\n9 4 1 1 2 2 2 -3\n9 5 0 0 2 0 1\n0\n9 0 3 9\n9 4 2 1 3 1 4\n9 5 0 0 2 2 1\n0\n'),
+        (7, 4, b'asp 1 0 0 incremental\n9 1 0 1 p\n9 0 1 7\n9 0 2 8\n9 4 0 1 1 1 1\n9 4 1 1 2 2 2 -3\n9 5 0 0 2 0 1\n0\n9 0 3 9\n9 4 2 1 3 1 4\n9 5 0 0 2 2 1\n0\n'),
     ]
     for m, o, d in fixed:
         for v in (0, 1, 2):
@@ -401,8 +447,15 @@ def gen(seed, tier):
         variant = rnd.choice([0, 0, 1, 2])
         fam = rnd.choice(['aspif', 'aspif', 'smodels', 'smodels', 'text'])
         if fam == 'aspif':
-            base = aspif_text(C.r_program(rnd), rnd)
             modes = [(0, 0), (3, rnd.randint(0, 1)), (4, 0)]
+            pipeline = rnd.random() < 0.6
+            if pipeline:
+                modes = modes[1:]          # converters / text writer index tables by atom and id: keep those small
+                C.BIG_ATOMS = False
+            try:
+                base = aspif_text(coherent_theory_program(rnd) if rnd.random() < (0.5 if pipeline else 0.3) else C.r_program(rnd), rnd)
+            finally:
+                C.BIG_ATOMS = True
         elif fam == 'smodels':
             base = smodels_text(rnd)
             modes = [(1, rnd.randint(0, 15)), (5, rnd.randint(0, 3)), (6, rnd.randint(0, 3))]
